@@ -474,6 +474,27 @@ pub fn run(out: &mut Out, tier: &str, seed: u64, prop: &str) {
                     out.stat("c16.atom_families");
                 } }
             }
+            // markers on ONE string key (and one version key) with different NUMBERS of edges, some with an extra below one edge: an
+            // order that compares children before ranges, or stops at the shorter edge list, has cycles only among such triples
+            {
+                use crate::marker::Term;
+                for (is_ver, k, lits) in [(false, 1usize, ["a", "b", "m", "n", "p"]), (true, 1usize, ["3.1", "3.2", "3.6", "3.7", "3.9"])] {
+                    let eq = |l: &str| if is_ver { Term::V(k, 0, l.to_string()) } else { Term::S(k, 0, l.to_string()) };
+                    let gt = |l: &str| if is_ver { Term::V(k, 4, l.to_string()) } else { Term::S(k, 2, l.to_string()) };
+                    let x = Term::X(false, "x".into());
+                    let fam = vec![eq(lits[2]), Term::or(eq(lits[3]), eq(lits[4])), Term::or(eq(lits[0]), Term::and(eq(lits[1]), x.clone())), Term::or(eq(lits[0]), eq(lits[1])), eq(lits[0]), gt(lits[2]),
+                        Term::or(eq(lits[0]), gt(lits[3])), Term::and(eq(lits[2]), x.clone()), Term::or(Term::and(eq(lits[0]), x.clone()), eq(lits[4])), Term::not(eq(lits[2])), Term::or(Term::or(eq(lits[0]), eq(lits[2])), eq(lits[4])), Term::and(gt(lits[0]), Term::not(eq(lits[3])))];
+                    let trees: Vec<MarkerTree> = fam.iter().filter_map(|t| crate::algebra::try_build(out, "C16", t)).collect();
+                    if trees.len() != fam.len() { return; }
+                    for (i, a) in trees.iter().enumerate() { for (j, b) in trees.iter().enumerate() { for (l, c) in trees.iter().enumerate() {
+                        out.evaluations += 1;
+                        if a.cmp(b) == std::cmp::Ordering::Less && b.cmp(c) == std::cmp::Ordering::Less && a.cmp(c) != std::cmp::Ordering::Less {
+                            out.oracle_fail("C16", "cmp is not transitive (markers on one key with different numbers of edges)", serde_json::json!({"a": fam[i].line(), "b": fam[j].line(), "c": fam[l].line()}));
+                        }
+                    } } }
+                    out.stat("c16.edge_count_families");
+                }
+            }
             // Requirement and VerbatimUrl: Eq / Ord / Hash agree (VerbatimUrl ignores the verbatim text)
             std::env::set_var("VP_HOME_DIR", "home/ferris");
             let reqs = ["a @ https://x.org/home/ferris/p", "a @ https://x.org/${VP_HOME_DIR}/p", "a @ https://X.ORG/home/ferris/p", "a @ https://x.org/home/ferris/q", "a>=1", "a >= 1", "a>=1,<2", "a<2,>=1",
